@@ -115,6 +115,49 @@ func checkC04(e *Engine, r *Report) {
 				cs2 := backSlice(a[2], SliceOpts{ThroughCallArgs: alwaysThrough, IntoCallees: func(f *ssa.Function) bool { return pkgPathOf(f) == pkgEvmVM }, Depth: 2})
 				ok = sliceFrom(a[1]).HasValue(w.fn.Params[1]) && cs2.HasValue(w.fn.Params[2]) && hasFieldLoad(cs2, "cStateDb", "evmDenom")
 			}
+			if !ok && len(cs) == 0 {
+				// the wrapper may delegate to a shared private helper that receives the mint/burn helper as a function value:
+				// `d.changeBalance(address, b, d.mintCoins)` → inside: `applyCoins(address.Bytes(), NewCoins(NewCoin(d.evmDenom, amount)))`
+				for _, hc := range callsIn(w.fn, false, func(c ssa.CallInstruction) bool { return privHelper(pkgEvmVM)(c.Common().StaticCallee()) }) {
+					h := hc.Common().StaticCallee()
+					fi := -1
+					for i, a := range hc.Common().Args {
+						if mc, isMC := a.(*ssa.MakeClosure); isMC {
+							if bf, isF := mc.Fn.(*ssa.Function); isF && bf.Object() != nil && bf.Object() == w.helper.Object() {
+								fi = i
+							}
+						}
+					}
+					if fi < 0 || fi >= len(h.Params) {
+						continue
+					}
+					bound := func(sl *Slice, want ssa.Value) bool {
+						for pi, p := range h.Params {
+							if pi < len(hc.Common().Args) && sl.HasValue(p) && resolveLocal(hc.Common().Args[pi]) == want {
+								return true
+							}
+						}
+						return false
+					}
+					n := 0
+					good := true
+					for _, dc := range callsIn(h, false, func(c ssa.CallInstruction) bool { return c.Common().Value == ssa.Value(h.Params[fi]) }) {
+						n++
+						a := dc.Common().Args
+						if len(a) != 2 {
+							good = false
+							continue
+						}
+						coins := backSlice(a[1], SliceOpts{ThroughCallArgs: alwaysThrough, IntoCallees: func(f *ssa.Function) bool { return pkgPathOf(f) == pkgEvmVM }, Depth: 2})
+						if !bound(sliceFrom(a[0]), ssa.Value(w.fn.Params[1])) || !bound(coins, ssa.Value(w.fn.Params[2])) || !hasFieldLoad(coins, "cStateDb", "evmDenom") {
+							good = false
+						}
+					}
+					if n == 1 && good {
+						ok = true
+					}
+				}
+			}
 			r.Check(ok, fnKey(w.fn)+" › helper(address, (evmDenom, amount))", e.Pos(w.fn.Pos()), "coins = NewCoin(d.evmDenom, b) for `address`", "the balance change is not exactly `b` of the EVM denomination for the given address")
 		}
 	})
